@@ -40,6 +40,8 @@ type runner struct {
 	sf   bool
 	auto bool
 	noep bool
+	server bool  // server-side Client.Subscribe instead of a subscribe command
+	subErr error // what Client.Subscribe returned
 	winAtRead []int // offsets retained in history when it was read
 
 	mu         sync.Mutex
@@ -238,6 +240,9 @@ func (r *runner) project() []frame {
 			out = append(out, frame{T: "pub", Off: int(rep.Push.Pub.Offset), ID: id})
 		case rep.Push != nil && rep.Push.Channel == r.ch && rep.Push.Unsubscribe != nil:
 			out = append(out, frame{T: "unsub", Code: int(rep.Push.Unsubscribe.Code)})
+		case r.server && rep.Push != nil && rep.Push.Channel == r.ch && rep.Push.Subscribe != nil:
+			// server-side subscription: the subscribe push takes the place of the reply (it cannot carry publications)
+			out = append(out, frame{T: "reply", Off: int(rep.Push.Subscribe.Offset), Pubs: []int{}})
 		case rep.Push != nil && rep.Push.Disconnect != nil:
 			// written before the transport close; the close itself is projected below
 		default:
@@ -461,7 +466,7 @@ func tagsFilter() *protocol.FilterNode {
 
 func (w *worker) run(bi int, beh []map[string]any, res *vh.Result) {
 	cfg := vh.Map(beh[0]["cfg"])
-	r := &runner{w: w, ch: fmt.Sprintf("ss%d_%d", vh.Seed(), bi), cfg: cfg, kind: vh.Str(cfg["kind"]), filt: vh.Bool(cfg["filt"]), sf: vh.Bool(cfg["sf"]), auto: vh.Bool(cfg["auto"]), noep: vh.Bool(cfg["noep"]),
+	r := &runner{w: w, ch: fmt.Sprintf("ss%d_%d", vh.Seed(), bi), cfg: cfg, kind: vh.Str(cfg["kind"]), filt: vh.Bool(cfg["filt"]), sf: vh.Bool(cfg["sf"]), auto: vh.Bool(cfg["auto"]), noep: vh.Bool(cfg["noep"]), server: vh.Bool(cfg["server"]),
 		deliveries: map[int]delivery{}, g1: cl.NewGate()}
 	if r.kind == "pos" || r.kind == "rec" || r.kind == "cache" {
 		r.g2, r.g3 = cl.NewGate(), cl.NewGate()
@@ -586,10 +591,29 @@ func (w *worker) run(bi int, beh []map[string]any, res *vh.Result) {
 				}
 			}
 			r.subDone = make(chan struct{})
-			go func() {
-				defer close(r.subDone)
-				conn.Do(&protocol.Command{Id: id, Subscribe: req})
-			}()
+			if r.server {
+				var opts []centrifuge.SubscribeOption
+				switch r.kind {
+				case "pos":
+					opts = append(opts, centrifuge.WithPositioning(true))
+				case "rec":
+					opts = append(opts, centrifuge.WithRecovery(true), centrifuge.WithRecoverSince(&centrifuge.StreamPosition{Offset: req.Offset, Epoch: req.Epoch}))
+				}
+				if r.filt {
+					opts = append(opts, func(o *centrifuge.SubscribeOptions) {
+						o.ServerTagsFilter = &centrifuge.FilterNode{Key: "t", Cmp: "eq", Val: "keep"}
+					})
+				}
+				go func() {
+					defer close(r.subDone)
+					r.subErr = conn.Client.Subscribe(r.ch, opts...)
+				}()
+			} else {
+				go func() {
+					defer close(r.subDone)
+					conn.Do(&protocol.Command{Id: id, Subscribe: req})
+				}()
+			}
 			if !r.g1.WaitArrived(gateTimeout) {
 				drift("subscriber did not reach Broker.Subscribe")
 			}
@@ -628,6 +652,9 @@ func (w *worker) run(bi int, beh []map[string]any, res *vh.Result) {
 			// the goroutine the model runs now is parked at the entry of handleInsufficientState (if the code spawned it)
 			r.waitAsync(1, 2*time.Second)
 			if r.releaseAsync(false) {
+				if mo := modelOut(st); r.server && len(mo) > 0 && mo[len(mo)-1].T == "disc" {
+					conn.T.WaitFor(2*time.Second, func(_ []*protocol.Reply, closed bool) bool { return closed })
+				}
 				res.Count("async_released_from_gate", 1)
 				if vh.Int(beh[si-1]["pend"]) > 0 && vh.Str(vh.Map(beh[si-1]["step"])["act"]) != "Deliver" {
 					res.Count("async_delayed_past_other_steps", 1)
